@@ -46,12 +46,19 @@ def sh(cmd, cwd=None, timeout=None, env=None, inp=None):
 
 # ----------------------------------------------------------------------------------------------- build steps
 
+TRANSLATOR_NOTES = []
+
+
 def run_translators():
     """returns list of broken obligations (strings)"""
     broken = []
     rc, out = sh([sys.executable, os.path.join(ROOT, "tools", "gen_consts.py")])
     if rc != 0:
         broken.append("Gen.Consts: " + out.strip().splitlines()[-1] if out.strip() else "Gen.Consts")
+    # a group of constants the extractor could not re-read (renamed / hoisted / refactored definition) keeps its last
+    # extracted values: for them the model is tied to the code by the correspondence run of this check alone
+    TRANSLATOR_NOTES[:] = ["translator: constants group not re-extracted, last values kept, tie = correspondence run: " + l.split("STALE", 1)[1].strip()
+                           for l in out.splitlines() if l.startswith("gen_consts: STALE")]
     sk = os.path.join(ROOT, "tools", "extract_skeleton.py")
     if os.path.exists(sk):
         rc, out = sh([sys.executable, sk])
@@ -338,6 +345,7 @@ def run_property(pid, tier, seed, replay=None):
 
     # 1 translators
     o.broken += run_translators()
+    o.notes += TRANSLATOR_NOTES
     # 2 proofs
     modules = spec.get("lean", [])
     ok, out = lake_build(modules + ["kmodel"])
